@@ -278,9 +278,10 @@ func (r *Range) Split(chunkSize uint64) ([]*Range, error) {
 		}
 
 		currentStart = currentEnd
-		currentEnd = currentStart + chunkSize
-		if currentEnd > endBlock {
+		if endBlock-currentStart <= chunkSize {
 			currentEnd = endBlock
+		} else {
+			currentEnd = currentStart + chunkSize
 		}
 	}
 
